@@ -259,11 +259,14 @@ def check_case(pt, acc, case):
     acc.sample({"variables": exp["n_live"], "explicit_ids": case["explicit"][:6], "version": case["version"], "kinds": kinds}, cap=4)
 
 
-def must_reject(pt, acc, rng):
+KINDS = ["over256", "over256_mixed", "duplicate", "duplicate_far", "duplicate_shared", "duplicate_cross_routine", "out_of_range"]
+
+
+def must_reject(pt, acc, rng, kind=None):
     from ..common import PT_ERRORS, reset_globals
     reset_globals()
     acc.evaluations += 1
-    kind = rng.choice(["over256", "over256_mixed", "duplicate", "duplicate_far", "out_of_range"])
+    kind = kind or rng.choice(KINDS)
     I = pt.Int
     case = {"probe": kind}
     try:
@@ -279,6 +282,20 @@ def must_reject(pt, acc, rng):
             a, b = pt.ScratchVar(pt.TealType.uint64, sid), pt.ScratchVar(pt.TealType.uint64, sid)
             filler = [pt.ScratchVar(pt.TealType.uint64) for _ in range(0 if kind == "duplicate" else 30)]
             prog = pt.Seq(a.store(I(1)), *[v.store(I(2)) for v in filler], b.store(I(3)), a.load() + b.load() + pt.Add(I(0), *[v.load() for v in filler]))
+        elif kind in ("duplicate_shared", "duplicate_cross_routine"):
+            # the two variables that request one id are both used by several routines (or live in different routines)
+            sid = rng.randrange(256)
+            a, b = pt.ScratchVar(pt.TealType.uint64, sid), pt.ScratchVar(pt.TealType.uint64, sid)
+            if kind == "duplicate_shared":
+                @pt.Subroutine(pt.TealType.uint64)
+                def rd():
+                    return a.load() * I(1000) + b.load()
+                prog = pt.Seq(a.store(I(1)), b.store(I(2)), rd())
+            else:
+                @pt.Subroutine(pt.TealType.uint64)
+                def own():
+                    return pt.Seq(b.store(I(2)), b.load())
+                prog = pt.Seq(a.store(I(1)), own() + a.load())
         else:
             sid = rng.choice([256, 257, 1000, -1])
             a = pt.ScratchVar(pt.TealType.uint64, sid)
@@ -303,11 +320,13 @@ def run_shard(shard):
     if "replay" in shard:
         c = shard["replay"]
         if "probe" in c:
-            must_reject(pt, acc, rng_for(0, "replay"))
+            must_reject(pt, acc, rng_for(0, "replay"), c["probe"])
         else:
             check_case(pt, acc, c)
         return acc.result()
     rng = rng_for(shard["seed"], "c10", shard["shard"])
+    for kind in KINDS:
+        must_reject(pt, acc, rng, kind)
     for i in range(shard["n"]):
         check_case(pt, acc, gen_case(rng, big=(i % 9 == 8)))
         if i % 3 == 0:
